@@ -66,6 +66,48 @@ theorem chain_positions (rw orig : List Token) :
     · simp at hr
     · simp at hr; subst hr; simp
 
+/-! ### the writer's removal of repeated tokens -/
+
+/-- the map writer does not repeat a token equal to the one just written (`dedupConsecutive` of the
+    checked model, on abstract tokens) -/
+def dedup : List Token → List Token
+  | a :: b :: rest => if a = b then dedup (b :: rest) else a :: dedup (b :: rest)
+  | l => l
+
+/-- the last element of a filtered list, one element at a time -/
+theorem last_of_filter_cons (p : Token → Bool) (a : Token) (l : List Token) :
+    ((a :: l).filter p).getLast? = ((l.filter p).getLast?).or (if p a then some a else none) := by
+  by_cases h : p a = true
+  · simp only [List.filter_cons, h, if_true]
+    cases hr : l.filter p with
+    | nil => simp
+    | cons x xs =>
+      rw [List.getLast?_cons_cons]
+      have : (x :: xs).getLast? = some ((x :: xs).getLast (by simp)) := List.getLast?_eq_getLast (by simp)
+      rw [this]; rfl
+  · simp only [List.filter_cons, h, Bool.false_eq_true, if_false]
+    cases (l.filter p).getLast? <;> simp
+
+/-- dropping a token equal to its successor changes no lookup -/
+theorem lookup_dedup : ∀ (l : List Token) (line col : Nat), lookup (dedup l) line col = lookup l line col := by
+  intro l line col
+  unfold lookup
+  generalize (fun t : Token => posLe t.genLine t.genCol line col) = p
+  induction l using dedup.induct with
+  | case1 a rest ih =>
+    rw [dedup, if_pos rfl, ih, last_of_filter_cons p a (a :: rest), last_of_filter_cons p a rest]
+    cases ((rest.filter p).getLast?) <;> cases (if p a = true then some a else none) <;> simp
+  | case2 a b rest hab ih =>
+    rw [dedup, if_neg hab, last_of_filter_cons p a (dedup (b :: rest)), ih, ← last_of_filter_cons p a (b :: rest)]
+  | case3 l hl => rw [dedup]; exact hl
+
+/-- **C10 (composition, as emitted).**  The chained map as the writer emits it — tokens re-targeted
+    through the original map, then repeated tokens dropped — answers every lookup like looking the
+    position up in the rewrite map and then in the original map. -/
+theorem emitted_chain_lookup (rw orig : List Token) (h : AllResolvable rw orig) (line col : Nat) :
+    lookup (dedup (chain rw orig)) line col = (lookup rw line col).map (retargetD orig) := by
+  rw [lookup_dedup, chain_lookup rw orig h]
+
 /-- non-vacuity -/
 example : AllResolvable [⟨0, 4, some (0, 2, 1), none⟩] [⟨2, 0, some (0, 10, 3), some 1⟩] := by
   intro t ht
